@@ -1,7 +1,9 @@
 from common import T_COMMON
 
 CFG = dict(
-    gen=[dict(spec="transform.json", out="Transform.lean"), dict(spec="trees.json", out="Trees.lean")],
+    gen=[dict(spec="transform.json", out="Transform.lean"), dict(spec="trees.json", out="Trees.lean"),
+         dict(spec="render.json", out="Render.lean")],
+    modules=["PolyVerif.Props.C16", "PolyVerif.Props.C16Prims"],
     theorems=[
         # geometry facts about the regenerated AABB code / the hand-modelled slab test (over ℝ)
         "aabb_lower_bound", "aabb_contains_mono", "aabb_distance_mono", "slab_mono", "slab_sound", "aabb_encapsulate_contains",
@@ -19,8 +21,13 @@ CFG = dict(
         # BVH
         "bvh_hit_eq_list", "bvh_hit_eq_list_aabb", "hitlist_nearest", "bvh_hit_eq_hitlist_any_order",
         "bvh_build_covers", "bvh_built_hit_eq_hitlist", "octree_hit_eq_hitlist",
+        # round 2 (Props/C16Prims.lean): the real primitives are hit only inside their boxes; BVH = HitList without primitive hypothesis
+        "sphere_hit_on_sphere", "sphere_hit_in_box", "rect_hit_in_box", "rayIntersectsTri_in_box", "tri_hit_in_box",
+        "prim_hit_in_box", "prim_hit_slab", "bvh_hit_eq_list_strict", "prims_bvh_hit_eq_hitlist",
     ],
-    streams=[dict(name="c16", n=dict(quick=150, thorough=6000))],
+    helper_theorems=["sphereHit_eq", "rectHit_eq", "rayIntersectsTri_eq", "prim_box_wf'"],
+    streams=[dict(name="c16", n=dict(quick=150, thorough=6000)),
+             dict(name="c16prims", n=dict(quick=400, thorough=20000))],
     trusted=T_COMMON + [
         "Model/Tree.lean is a hand transcription of trees/octree.go, rendering/bvh.go, rendering/hit.go and of "
         "AABB.IntersectsRayInRange (pointer-based helper); tied by bit-exact correspondence of bounds, visit order of every "
